@@ -3,11 +3,16 @@ from . import COMMON_TB, NOTE
 PROP = {
     "modules": ["Proofs.C05", "Proofs.C05E2E", "Proofs.C05Spell"],
     "streams": [{"name": "scan"}, {"name": "val", "shards": 2}, {"name": "verbatim"}],
-    "rule": "scan: every string of length<=5 (quick) / 6 (thorough) over {{ }} % - \" space newline a, harvested test "
+    "rule": "scan: every string of length<=5 (quick) / 6 (thorough) over {{ }} % - \" space newline a, every raw/comment "
+            "block made of 3 opening-tag spellings x every body of <=3 (quick) / 4 (thorough) pieces over {TL TR OL OR - space "
+            "newline a endraw endcomment} x 6 continuations (end tag in three spellings, end tag with arguments, a near miss "
+            "followed by the end tag, nothing) under the default delimiters, << >> [ ] and { } {% %}, harvested test "
             "templates and their mutants, random bytes / UTF-8 / delimiter-dense sources up to 64 KiB; a case is "
             "non-trivial when it yields more than one token; distinct by case line",
     "trusted_base": COMMON_TB,
-    "assumptions": ["the model's Scan/tokenRe describe parser/scanner.go: checked by the scan stream on every run"],
+    "assumptions": ["the model's Scan/tokenRe describe parser/scanner.go: checked by the scan stream on every run",
+                    "the end-tag pattern of formEndTagMatcher (TL-?\\s*end<name>\\s*-?TR) is modelled by endTagRe and is tied by the scan "
+                    "stream's raw/comment family (default and custom delimiters), not by translator T4"],
 }
 
 TEXT = {
@@ -27,15 +32,21 @@ TEXT = {
               'deleting a whole comment block after any prefix the parser leaves outside comment/raw changes nothing '
               '(comment_block_erased); the token-level statements assume that no object token of the body has arguments outside '
               'the expression-lexer model (negative-zero literal; the model answers `unmodelled` there). From source bytes, for every '
-              'delimiter set satisfying GoodDelims and every body satisfying the decidable predicate Clean (C19, scan_spell): the '
-              'source `TL raw TR body TL endraw TR` renders to exactly the bytes of the body as written '
-              '(raw_source_renders_body) and `TL comment TR body TL endcomment TR` renders to nothing, never an error '
-              '(comment_source_renders_nothing). Ties: the tokenizer model is compared with parser.Scan on exhaustive '
+              'delimiter set satisfying GoodDelims (C19, scan_spell) and EVERY body - any bytes in which no end tag of the block '
+              'begins, unclosed `{%` and `{{` included (the tokenizer treats raw and comment lexically since the repair '
+              'fixes/raw-comment-lexical; before it such a body swallowed the end tag): the source `TL raw TR body TL endraw TR` '
+              'renders to exactly the bytes of the body (raw_body_bytes_emitted) and `TL comment TR body TL endcomment TR` renders '
+              'to nothing, never an error (comment_body_bytes_dropped); the former counterexamples `{% b `, `a {{ x `, '
+              '`%}\\t{%b c{{- x -}}` are evaluated examples; the block ends at the FIRST end tag, whatever follows: a clean text, '
+              'the opening tag, any such body, the end tag and any clean remainder are tokenized as text, tag, ONE text token '
+              'holding the body, end tag, remainder (lex_block_tokens); a comment block with any such body between any clean '
+              'items can be deleted from the token list without changing the result of `run` (comment_block_anywhere); the item-list forms raw_source_renders_body / '
+              'comment_source_renders_nothing remain. Ties: the tokenizer model is compared with parser.Scan on exhaustive '
               'small strings and random/64KiB inputs; printed values with the real writeObject; the `verbatim` stream renders '
               'text / raw / comment / string-value templates on the real engine and checks byte equality with the source pieces; '
               'the partition/line oracle is evaluated on the real tokens.'),
     "design_ref": 'DESIGN.md 6 C05',
     "note": NOTE + (""),
-    "technique": ('Lean 4 proof (induction on the FindAll loop, generic in the regexp; render-tree lemmas) + model/implementation '
+    "technique": ('Lean 4 proof (induction on the match loop of Scan, generic in the regexp, with the lexical skip of raw/comment bodies; render-tree lemmas) + model/implementation '
               'correspondence + verbatim oracle on the implementation'),
 }
